@@ -100,14 +100,13 @@ def expandSpec : List Int → List Int → List Int
   | l :: lo, h :: hi => rangeI l h ++ expandSpec lo hi
   | _, _ => []
 
-/-- The body of `expand_index_pointers` after broadcasting, written as in the code:
-    drop the empty intervals, fill an array of ones, overwrite the interval starts with the jump
-    from the end of the previous interval, cumulative sum. -/
-def expandCore (lo hi : List Int) : List Int :=
-  let keep := (lo.zip hi).filter (fun p => decide (p.1 + 1 ≤ p.2))
-  match keep with
+/-- The body of `expand_index_pointers` on the intervals that survive `pos_diff`, as in the code:
+    fill an array of ones, overwrite the interval starts with the jump from the end of the previous
+    interval (`x[0] = lo[0]; x[cumsum(num[:-1])] = lo[1:] - hi[:-1]`), cumulative sum. -/
+def expandKept : List (Int × Int) → List Int
   | [] => []
-  | p0 :: _ =>
+  | p0 :: rest =>
+    let keep := p0 :: rest
     let lo' := keep.map (·.1)
     let hi' := keep.map (fun p => p.2 - 1)
     let num : List Nat := keep.map (fun p => (p.2 - 1 - p.1 + 1).toNat)
@@ -115,6 +114,10 @@ def expandCore (lo hi : List Int) : List Int :=
     let x := x.set 0 p0.1
     let x := scatter x (cumsumN num.dropLast) (List.zipWith (· - ·) lo'.tail hi'.dropLast)
     cumsum x
+
+/-- after broadcasting: drop the empty intervals (`pos_diff = hi >= lo + 1`), then `expandKept` -/
+def expandCore (lo hi : List Int) : List Int :=
+  expandKept ((lo.zip hi).filter (fun p => decide (p.1 + 1 ≤ p.2)))
 
 /-- `lo * np.ones(hi.size)` when `lo.size == 1`, then the same for `hi` (in this order) -/
 def broadcastLoHi (lo hi : List Int) : List Int × List Int :=
@@ -174,16 +177,21 @@ def maskSel : List α → List Bool → List α
   | x :: a, b :: r => if b then x :: maskSel a r else maskSel a r
   | _, _ => []
 
-/-- `rldecode(A, n)` as coded (current /repo: zero counts are dropped from `A` and `n`):
-    `i = cumsum([0] ++ n[r])`, `j = zeros(i[-1]); j[i[1:-1]] = 1`, `B = A[r][cumsum(j)]`.
-    `A` is indexed along its first axis; a length mismatch raises `IndexError` (boolean mask). -/
+/-- `np.where(mask)[0]` / `np.flatnonzero(mask)` -/
+def whereTrue (mask : List Bool) : List Nat := trueIdxFrom 0 mask
+
+/-- `rldecode(A, n)` as coded (current /repo: entries with a count ≤ 0 are skipped in `A` and `n`):
+    `r = n > 0; i = cumsum([0] ++ n[r])`, `j = zeros(i[-1]); j[i[1:-1]] = 1`,
+    `B = A[flatnonzero(r)[cumsum(j)]]`.  `A` is indexed along its first axis; the only error is
+    numpy's `IndexError` when a positive count sits at a position beyond the end of `A`. -/
 def rldecode [Inhabited α] (a : List α) (n : List Int) : Except String (List α) :=
   let r := n.map (fun c => decide (0 < c))
   let nr : List Nat := (maskSel n r).map Int.toNat
   let i := cumsumN (0 :: nr)
   let j := List.replicate (i.getLastD 0) (0 : Nat)
   let j := scatterConst j i.tail.dropLast 1
-  if a.length ≠ n.length then .error "IndexError" else .ok (gather (maskSel a r) (cumsumN j))
+  let idx := gather (whereTrue r) (cumsumN j)
+  if idx.any (fun k => decide (a.length ≤ k)) then .error "IndexError" else .ok (gather a idx)
 
 /-! ## compressed matrices -/
 
@@ -256,9 +264,6 @@ def zeroLines (A : Csr) (lines : List Nat) : Csr :=
   { A with data := scatterConst A.data (A.lineIdx lines) 0 }
 
 /-! ### slice_indices / slice_sparse_matrix -/
-
-/-- `np.where(mask)[0]` -/
-def whereTrue (mask : List Bool) : List Nat := trueIdxFrom 0 mask
 
 /-- `slice_indices(A, ind, return_array_ind=True)` = (`A.indices[array_ind]`, `array_ind`) -/
 def sliceIndices (A : Csr) (ind : List Nat) : List Nat × List Nat :=
